@@ -1,7 +1,9 @@
 """C11 — bulk/interrupt IN endpoints deliver the stream exactly once, in order.
 
 Units: the real USBStreamInEndpoint (with its USBInTransferManager inside; `active` = token endpoint == N, ZLPs on) and
-the bare USBInTransferManager (`active`, `generate_zlps` free inputs), max packet sizes by enumeration.
+the bare USBInTransferManager (`active`, `generate_zlps` free inputs), max packet sizes by enumeration; and the real
+USBMultibyteStreamInEndpoint (byte_width 2, 4; 3 in thorough) at the boundary between its wide stream and the byte stream of
+the USBStreamInEndpoint inside it (see multibyte()).
 
 Observer-level ghosts (functions of the unit's inputs/outputs only)
     n_in     input bytes accepted so far (transfer_stream valid & ready), 16-bit modular
@@ -25,8 +27,19 @@ k arbitrary), attempts are complete (`last` exactly at byte plen-1, same plen on
 ACK: the concatenation of the ACKed packets is a gap-free prefix of the input stream and retries repeat the payload.
 
 Environment assumptions (each listed in the evidence):
-  * discard = 0 and no PID-sequence reset (clear-halt) — the statement quantifies over streams, flushes, tokens, ACKs and
-    PHY ready patterns; reset_sequence is C14's subject.
+  * no PID-sequence reset (clear-halt): reset_sequence is C14's subject.
+  * `discard`: a FREE input for every USBInTransferManager configuration and for the USBStreamInEndpoint configurations
+    with max packet size <= 8 (held 0 for the larger endpoint sizes and in C14).  Spec side: a discard cycle forgets
+    everything accepted up to and including that cycle (n_ack := n_in, no attempt outstanding, no retry, zlp_due / zlp_owed
+    cleared, lal := 0); exp_pid flips only when the discard hits a completely sent packet whose handshake is outstanding
+    (the code leaves the PID advanced there and undoes the toggle of a merely prepared packet).  Ensures under discard:
+    nothing driven in a discard cycle; in the next cycle transfer_stream.ready is high, nothing is valid and an IN token
+    without newly offered data is NAKed; no ZLP until a packet of new data was ACKed (ghost dz); data bytes sent later are
+    input bytes at positions >= the discard position (position clause); PID after discard.
+    NOT specified (two code defects, excluded by requires marked FINDING): a byte marked `last` offered in a discard cycle
+    (ready is not gated by discard: the emptied write buffer stays 'ended' -> ready stuck low / spurious ZLP), and discard
+    while a data packet is being transmitted (SEND_PACKET ignores discard, fill count zeroed: `last` never comes).
+    A non-`last` byte accepted in a discard cycle is specified: it is dropped.
   * an ACK strobe and a token strobe never coincide (C01/C04 ensures, same receive path).
   * the transmitter does not take a byte in the very first cycle a packet is offered: USBDataPacketGenerator keeps
     stream.ready low in IDLE and SEND_PID, i.e. for at least two cycles after valid&first appears.  (Without it the
@@ -44,7 +57,9 @@ EXPLANATION = ("1-induction on the netlists of the real USBStreamInEndpoint / US
                "counters, PID register, read port and both buffer memories are related to observer-level ghosts (bytes in, "
                "bytes ACKed, attempt phase, expected toggle) and to a symbolic witness byte (position k, value v).")
 ASSUMPTIONS = [
-    "C11: discard=0 and reset_sequence / clear_endpoint_halt=0 (outside the statement's quantifier; C14 covers the reset)",
+    "C11: reset_sequence / clear_endpoint_halt=0 (C14 covers the reset); discard=0 only for USBStreamInEndpoint sizes > 8",
+    "C11 (discard free): no byte marked `last` is offered in a discard cycle -- FINDING, the code mishandles it (ready not gated by discard)",
+    "C11 (discard free): discard is not raised while a data packet is being transmitted -- FINDING, SEND_PACKET ignores discard",
     "C11: ACK strobe and token strobe never coincide (C01/C04)",
     "C11: packet_stream.ready is low in the first cycle of a packet attempt (USBDataPacketGenerator: ready=0 in IDLE/SEND_PID)",
 ]
@@ -536,14 +551,6 @@ WIRING = ("tokenizer", "handshakes_in", "handshakes_out", "tx", "utmi_tx")
 
 
 def contracts(tier):
-    import os
-    if os.environ.get("C11_DEV"):
-        yield from [x for x in _contracts(tier) if os.environ["C11_DEV"] in x[0] + "/" + x[1]]
-    else:
-        yield from _contracts(tier)
-
-
-def _contracts(tier):
     from .w1_usb2_glue import mux_wiring, device_wiring
     yield ("USBDataPacketGenerator", "ready_low_at_packet_start", generator_support)
     yield ("USBEndpointMultiplexer", "wiring_3_interfaces", mux_wiring(3, WIRING))
@@ -553,11 +560,11 @@ def _contracts(tier):
         yield ("USBEndpointMultiplexer", "wiring_2_interfaces", mux_wiring(2, WIRING))
         yield ("USBDevice", "wiring_ulpi", device_wiring("ulpi", WIRING))
     if tier == "quick":
-        cfgs = [("endpoint", 4), ("endpoint", 8), ("manager", 8)]      # manager: `discard` is a free input
+        cfgs = [("endpoint", 4), ("endpoint", 8), ("manager", 8)]
     else:
         cfgs = [("endpoint", m) for m in (2, 4, 8, 16, 32, 64, 512)] + [("manager", m) for m in (4, 8, 16, 64)]
     for w in ((2, 4) if tier == "quick" else (2, 3, 4)):
         yield ("USBMultibyteStreamInEndpoint", f"byte_width{w}", multibyte(w))
     for kind, m in cfgs:
         name = "USBStreamInEndpoint" if kind == "endpoint" else "USBInTransferManager"
-        yield (name, f"max{m}", make(kind, m, allow_discard=(kind == "manager" or bool(__import__("os").environ.get("C11_EPD")))))
+        yield (name, f"max{m}", make(kind, m, allow_discard=(kind == "manager" or m <= 8)))     # `discard` free: all manager sizes, endpoints up to 8
